@@ -263,7 +263,7 @@ class ProvRecord(object):
 
     def get_asserted_types(self):
         """Returns the set of all asserted PROV types of this record."""
-        return self._attributes[PROV_TYPE]
+        return self._attributes.get(PROV_TYPE, set())
 
     def add_asserted_type(self, type_identifier):
         """
@@ -282,7 +282,7 @@ class ProvRecord(object):
         :rtype: set
         """
         attr_name = self._bundle.valid_qualified_name(attr_name)
-        return self._attributes[attr_name]
+        return self._attributes.get(attr_name, set())
 
     @property
     def identifier(self):
@@ -310,7 +310,8 @@ class ProvRecord(object):
         :return: Tuple
         """
         return tuple(
-            first(self._attributes[attr_name]) for attr_name in self.FORMAL_ATTRIBUTES
+            first(self._attributes.get(attr_name, ()))
+            for attr_name in self.FORMAL_ATTRIBUTES
         )
 
     @property
@@ -321,7 +322,7 @@ class ProvRecord(object):
         :return: Tuple of tuples (name, value)
         """
         return tuple(
-            (attr_name, first(self._attributes[attr_name]))
+            (attr_name, first(self._attributes.get(attr_name, ())))
             for attr_name in self.FORMAL_ATTRIBUTES
         )
 
@@ -351,16 +352,13 @@ class ProvRecord(object):
     @property
     def label(self):
         """Identifying label of the record."""
-        return (
-            first(self._attributes[PROV_LABEL])
-            if self._attributes[PROV_LABEL]
-            else self._identifier
-        )
+        labels = self._attributes.get(PROV_LABEL)
+        return first(labels) if labels else self._identifier
 
     @property
     def value(self):
         """Value of the record."""
-        return self._attributes[PROV_VALUE]
+        return self._attributes.get(PROV_VALUE, set())
 
     # Handling attributes
     def _auto_literal_conversion(self, literal):
@@ -731,7 +729,7 @@ class ProvActivity(ProvElement):
 
         :return: :py:class:`datetime.datetime`
         """
-        values = self._attributes[PROV_ATTR_STARTTIME]
+        values = self._attributes.get(PROV_ATTR_STARTTIME)
         return first(values) if values else None
 
     def get_endTime(self):
@@ -740,7 +738,7 @@ class ProvActivity(ProvElement):
 
         :return: :py:class:`datetime.datetime`
         """
-        values = self._attributes[PROV_ATTR_ENDTIME]
+        values = self._attributes.get(PROV_ATTR_ENDTIME)
         return first(values) if values else None
 
     # Convenient assertions that take the current ProvActivity as the first
